@@ -254,7 +254,8 @@ def run_rename_shard(d, res):
             if not mask & 1:
                 continue
             template = "{id} " + "|".join("{%s}" % v for v in names[1:])
-        opts = dict(cut=[2, -1], adapters=[("-a", "ad=CA")], rename=template)
+        # the two -u options in either order: on reads shorter than both cuts together the recorded prefix/suffix differ
+        opts = dict(cut=[2, -1] if (mask >> 1) % 2 == 0 else [-2, 1], adapters=[("-a", "ad=CA")], rename=template)
         if paired:
             opts.update(cut2=[1], adapters2=[("-A", "bd=AG")])
         a1, a2 = make_adapters(opts)
